@@ -325,6 +325,8 @@ func TestVerif_C20(t *testing.T) {
 	r.Rule("fixed snapshot trees (quick 3, thorough 8) x pattern sets (all singles of 19 patterns, pairs with negations; thorough all ordered pairs) x modes (include, exclude, iinclude, iexclude; thorough also mixed lists) x {no delete into empty target, --delete into pre-existing trees (quick 1, thorough 2)}; one real backup per shard, one real runRestore per element; non-trivial = the selection is a proper non-empty subset of the snapshot entries or, with --delete, of the pre-existing extra entries")
 	r.Assume("filter.Match (single pattern vs path) is the trusted primitive (C28)", "patterns are applied to locations relative to the snapshot:subfolder root", "regular files and directories only")
 
+	verifC20Damaged(t, r)
+
 	trees := verifC20Trees(r.Thorough())
 	modes := verifC20Modes(r.Thorough())
 	sets := verifC20PatternSets(r.Thorough())
